@@ -80,17 +80,14 @@ Print Assumptions C08_recv_fb_is_recv.
 (* ---- unprotected non-fatal alerts (conn.go classifyReadLoopError) ---- *)
 
 (* WHILE THE HANDSHAKE IS RUNNING a warning alert that anybody can send (epoch 0, level warning, description
-   other than close_notify) is inert: no error surfaces (nothing is put into the capacity-1 channel nobody
-   reads yet), no alert, nothing closed, nothing delivered; epoch, keys, queue untouched.  The harness replays
+   other than close_notify) is inert: nothing at all is output (no error into the capacity-1 channel nobody reads
+   yet, no alert, nothing closed, nothing delivered, no replay commit) and the state is untouched.  The harness replays
    15fefd0000<seq>0002015a once, twice and three times at every handshake step: the handshake must complete and
    the first Read must return the peer's payload *)
 Theorem C08_warning_alert_inert_before_establishment :
   forall (W : nat) (lease full : bool) (s : rstate) (w : wire) (level desc : N),
     w_epoch w = 0 -> w_clear w = CAlert level desc -> is_warning (CAlert level desc) = true ->
-    let r := recv_conn W lease full false s w in
-    (snd r = [] \/ snd r = [OMark 0 (w_seq w)]) /\
-    r_epoch (fst r) = r_epoch s /\ r_init (fst r) = r_init s /\ r_queue (fst r) = r_queue s /\
-    r_closed (fst r) = r_closed s /\ r_cid (fst r) = r_cid s.
+    recv_conn W lease full false s w = (s, []).
 Proof. exact warning_alert_inert_before_establishment. Qed.
 Print Assumptions C08_warning_alert_inert_before_establishment.
 
@@ -111,13 +108,14 @@ Theorem C08_unprotected_ccs_inert_established :
 Proof. exact unprotected_ccs_inert_established_conn. Qed.
 Print Assumptions C08_unprotected_ccs_inert_established.
 
-(* what exception X1 still is, as coded: WHILE THE HANDSHAKE IS RUNNING an unprotected fatal alert with a fresh
-   record number closes the endpoint (DTLS 1.2 alerts are unauthenticated until the epoch changes) *)
+(* what exception X1 still is, as coded: WHILE THE HANDSHAKE IS RUNNING an unprotected fatal alert with a record
+   number the epoch-0 window accepts closes the endpoint (DTLS 1.2 alerts are unauthenticated until the epoch
+   changes); its number is not committed *)
 Theorem C08_unprotected_fatal_alert_before_establishment :
   forall (W : nat) (lease : bool) (s : rstate) (w : wire) (desc : N),
     r_closed s = false -> w_epoch w = 0 -> w_clear w = CAlert alert_fatal desc -> desc <> desc_close_notify ->
     check maxseq48 (get_win W 0 (r_wins s)) (w_seq w) = true ->
-    snd (recv_conn W lease false false s w) = [OMark 0 (w_seq w); OClosed].
+    snd (recv_conn W lease false false s w) = [OClosed].
 Proof. exact unprotected_fatal_alert_before_establishment. Qed.
 Print Assumptions C08_unprotected_fatal_alert_before_establishment.
 
@@ -127,10 +125,7 @@ Print Assumptions C08_unprotected_fatal_alert_before_establishment.
 Theorem C08_warning_alert_inert_during_negotiation :
   forall (W : nat) (lease full est : bool) (s : rstate) (w : wire) (level desc : N),
     w_epoch w = 0 -> w_clear w = CAlert level desc -> is_warning (CAlert level desc) = true ->
-    let r := recv_conn_neg W lease full true est s w in
-    (snd r = [] \/ snd r = [OMark 0 (w_seq w)]) /\
-    r_epoch (fst r) = r_epoch s /\ r_init (fst r) = r_init s /\ r_queue (fst r) = r_queue s /\
-    r_closed (fst r) = r_closed s /\ r_cid (fst r) = r_cid s.
+    recv_conn_neg W lease full true est s w = (s, []).
 Proof. exact warning_alert_inert_during_negotiation. Qed.
 Print Assumptions C08_warning_alert_inert_during_negotiation.
 
@@ -145,7 +140,7 @@ Print Assumptions C08_recv_conn_is_recv.
 (* an unprotected record is checked against the epoch-0 window but its number is never committed *)
 Theorem C08_epoch0_window_never_moves :
   forall (W : nat) (lease full est : bool) (s : rstate) (w : wire),
-    w_epoch w = 0 -> r_wins (fst (recv_top W lease full est s w)) = r_wins s.
+    w_epoch w = 0 -> r_wins (fst (recv_conn W lease full est s w)) = r_wins s.
 Proof. exact epoch0_window_never_moves. Qed.
 Print Assumptions C08_epoch0_window_never_moves.
 
@@ -156,37 +151,37 @@ Print Assumptions C08_epoch0_window_never_moves.
 Theorem C08_unprotected_number_harmless :
   forall (W : nat) (lease full est : bool) (s : rstate) (g : wire) (e q : N),
     w_epoch g = 0 ->
-    check maxseq48 (get_win W e (r_wins (fst (recv_top W lease full est s g)))) q =
+    check maxseq48 (get_win W e (r_wins (fst (recv_conn W lease full est s g)))) q =
     check maxseq48 (get_win W e (r_wins s)) q.
 Proof. exact unprotected_number_harmless. Qed.
 Print Assumptions C08_unprotected_number_harmless.
 
 Theorem C08_epoch0_never_marks :
   forall (W : nat) (lease full est : bool) (s : rstate) (w : wire),
-    w_epoch w = 0 -> marks (snd (recv_top W lease full est s w)) = [].
+    w_epoch w = 0 -> marks (snd (recv_conn W lease full est s w)) = [].
 Proof. exact epoch0_never_marks. Qed.
 Print Assumptions C08_epoch0_never_marks.
 
 Theorem C08_warning_alert_silent_before_establishment :
   forall (W : nat) (lease full : bool) (s : rstate) (w : wire) (level desc : N),
     w_epoch w = 0 -> w_clear w = CAlert level desc -> is_warning (CAlert level desc) = true ->
-    snd (recv_top W lease full false s w) = [].
+    snd (recv_conn W lease full false s w) = [].
 Proof. exact warning_alert_silent_before_establishment. Qed.
 Print Assumptions C08_warning_alert_silent_before_establishment.
 
 (* ---- KNOWN findings, as coded (witnesses) ---- *)
 
-(* K-C08-1: an unprotected return_routability_check record that decodes is answered with a fatal
+(* F101: an unprotected return_routability_check record that decodes is answered with a fatal
    unexpected_message alert and an error, in every phase (the pinned suite demands it) *)
 Theorem C08_unprotected_rrc_refuted :
   forall (W : nat) (lease full est : bool) (s : rstate) (w : wire),
     r_closed s = false -> w_epoch w = 0 -> w_clear w = CRrc ->
     check maxseq48 (get_win W 0 (r_wins s)) (w_seq w) = true ->
-    snd (recv_top W lease full est s w) = [OAlert alert_fatal desc_unexpected_message; OErr].
+    snd (recv_conn W lease full est s w) = [OAlert alert_fatal desc_unexpected_message; OErr].
 Proof. exact unprotected_rrc_refuted. Qed.
 Print Assumptions C08_unprotected_rrc_refuted.
 
-(* K-C08-2: the slot of a message the peer sends protected is taken by an unprotected record (reassembly is keyed
+(* F102: the slot of a message the peer sends protected is taken by an unprotected record (reassembly is keyed
    by message_seq only): the forged message is popped with epoch 0, the genuine one never *)
 Theorem C08_slot_theft_refuted :
   map (fun p => (p_epoch p, p_body p)) (snd (fst (Buffer.run Buffer.init [slot_forged; slot_genuine]))) = [(0, [0; 0])] /\
@@ -194,8 +189,8 @@ Theorem C08_slot_theft_refuted :
 Proof. exact slot_theft_refuted. Qed.
 Print Assumptions C08_slot_theft_refuted.
 
-(* K-C08-3b: one forged first fragment pins the length of the next message, which is then never reassembled.
-   (K-C08-3a, 1200 stored fragments against the limit of 1000: the count limit is tested once per record, which is
+(* F103: one forged first fragment pins the length of the next message, which is then never reassembled.
+   (F104, 1200 stored fragments against the limit of 1000: the count limit is tested once per record, which is
    exactly the bound C08_reassembly_bounds states - count + 1 <= max_count + K for records of at most K fragments.) *)
 Theorem C08_pinned_length_refuted :
   snd (fst (Buffer.run Buffer.init [pin_forged; pin_genuine; pin_genuine])) = [] /\
